@@ -15,6 +15,7 @@ func init() {
 }
 
 func c07(c *q.Ctx) {
+	permTree(c)
 	const st = "bcs/ledger/xledger/state::"
 	const th = "bcs/ledger/xledger/state/utxo/txhash::"
 	const au = "kernel/permission/acl/utils::"
